@@ -308,6 +308,20 @@ def _copy(ex, node, st):
 Exec.global_calls["shutil.copy"] = _copy
 
 
+def _move(ex, node, st):
+    """shutil.move: a rename only within one file system; in general (documented behaviour) a copy onto the destination followed by removing
+    the source - modelled as that general case, so a crash or fault in the middle sees a truncated destination"""
+    _copy(ex, node, st)
+
+    def eff(st_):
+        _set(st_, t_exists=z3.BoolVal(False))
+    io_call(ex, st, node, "remove", eff)
+    return NONE
+
+
+Exec.global_calls["shutil.move"] = _move
+
+
 def _replace(ex, node, st):
     src, dst = [ex.eval(a, st) for a in node.args]
 
